@@ -176,3 +176,47 @@ def bar_length_is_capacity(ctx):
     tdiv_exact = z3.ForAll([a_, d_], z3.Implies(z3.And(d_ > 0, a_ % d_ == 0), TDIV(a_, d_) == a_ / d_), patterns=[TDIV(a_, d_)])
     hyp = [n >= 0, d > 0, whole, tdiv_exact] + list(st.pc)
     return [("same_ticks_when_whole", hyp, lb == cap_int, f"length_bar `{_ast.unparse(e_len)}` == int(capacity `{_ast.unparse(e_cap)}`) whenever the capacity is whole")]
+
+
+@lemma("quantise_candidates_on_grid", ["C05"])
+def quantise_candidates_on_grid(ctx):
+    """The two candidate positions `quantise` computes per step size (the element expressions of its comprehensions `positions_left` and
+    `positions_right`, read from the real source on every run) are grid points of that step that bracket the original time:
+    left % s == 0, right % s == 0, left <= t < right, right - left == s   for every t >= 0 and step s > 0.  Every quantised time is chosen
+    among these candidates (or is the note's own start), so it lies on the grid of some step and moves by less than that step; and a
+    position strictly after the original time always exists within one step (what the survival clause of C05 rests on)."""
+    import ast as _ast
+    from pyvc.engine import Exec, State, mk_heap
+    from pyvc.values import Num, ConstList
+    fn, _ = ctx.sources.find("AbsoluteSequence.quantise")
+    comps = {}
+    for n in _ast.walk(fn):
+        if isinstance(n, _ast.Assign) and len(n.targets) == 1 and isinstance(n.targets[0], _ast.Name) and n.targets[0].id in ("positions_left", "positions_right") and isinstance(n.value, _ast.ListComp):
+            comps[n.targets[0].id] = n.value
+    if set(comps) != {"positions_left", "positions_right"}:
+        raise KeyError("quantise: candidate comprehensions not found")
+    t, s_ = z3.Ints("message_original_time step_size")
+    X = Exec(ctx, "lemma", None, silent=True)
+    st = State({}, mk_heap(ctx), [], {})
+    st.env = {"message_original_time": Num(t), "step_size": Num(s_)}
+    for k_, v_ in ctx.globals.items():
+        st.env.setdefault(k_, v_)
+    gl = comps["positions_left"].generators[0]
+    if not (isinstance(gl.target, _ast.Name) and gl.target.id == "step_size"):
+        raise KeyError("positions_left: unexpected loop variable")
+    left = X.ev(comps["positions_left"].elt, st)
+    gr = comps["positions_right"].generators[0]
+    st2 = State(dict(st.env), st.heap, [], {})
+    st2.env.update({"positions_left": ConstList([left]), "step_sizes": ConstList([Num(s_)])})
+    if isinstance(gr.target, _ast.Name):
+        st2.env[gr.target.id] = Num(0) if gr.target.id != "step_size" else Num(s_)
+    right = X.ev(comps["positions_right"].elt, st2)
+    if left.real or right.real:
+        raise ValueError("candidate positions are not int expressions")
+    hyp = [t >= 0, s_ > 0] + list(st.pc) + list(st2.pc)
+    L, Rr = left.v, right.v
+    src_l, src_r = _ast.unparse(comps["positions_left"].elt), _ast.unparse(comps["positions_right"].elt)
+    return [("left_on_grid", hyp, L % s_ == 0, f"`{src_l}` is a multiple of the step"),
+            ("right_on_grid", hyp, Rr % s_ == 0, f"`{src_r}` is a multiple of the step"),
+            ("bracket", hyp, z3.And(L <= t, t < Rr), "left <= original time < right"),
+            ("one_step_apart", hyp, Rr - L == s_, "right - left == step")]
